@@ -285,7 +285,7 @@ def typed_declarations(rng):
     if ty == "funct":
         good = ("funclit", [(None, "a")], None, [("return", Bn("+", L("a"), I(1)))])
     bad = wrong_val(rng, base) if ty not in ("float",) else I(3)
-    where_bad = rng.choice(["decl", "later", "nested", "loop", "none", "none", "param", "return", "redeclare", "opassign", "indexed"])
+    where_bad = rng.choice(["decl", "later", "nested", "loop", "none", "none", "param", "return", "redeclare", "opassign", "indexed", "param_reassign"])
     stmts = []
     if where_bad == "decl":
         stmts = [pr(Sx("start")), ("decl", kw, x, bad), pr(Sx("unreachable"))]
@@ -303,6 +303,16 @@ def typed_declarations(rng):
         ok = rng.random() < 0.5
         f = ("func", "tf", [(kw, "a")], None, [("return", I(1))])
         return {"runs": [(P([f, ("end", [pr(Sx("start")), pr(("ucall", "tf", [good if ok else bad])), pr(Sx("done"))])]), [])]}
+    elif where_bad == "param_reassign":
+        # "Type-checking is done at assignment time": a typed parameter keeps its type inside the body
+        ok = rng.random() < 0.3
+        g2 = val(rng, base) if ty not in ("float", "funct") else good
+        body = [asg(L("a"), g2 if ok else bad), pr(Sx("after reassign"), call("typeof", L("a")))]
+        if rng.random() < 0.6:
+            prog = [("subr", "ts", [(kw, "a")], body), ("end", [pr(Sx("start")), ("call", "ts", [good]), pr(Sx("done"))])]
+        else:
+            prog = [("func", "tf", [(kw, "a")], None, body + [("return", I(1))]), ("end", [pr(Sx("start")), pr(("ucall", "tf", [good])), pr(Sx("done"))])]
+        return {"runs": [(P(prog), [])]}
     elif where_bad == "return":
         ok = rng.random() < 0.4
         missing = rng.random() < 0.3
